@@ -522,6 +522,7 @@ func runC20(c *Ctx) {
 	if c20paymentsWithTax.Load() == 0 {
 		c.R.Inconclusive("no-payment-with-tax-summary-observed")
 	}
+	c.Require("payments_with_long_exchange_rates")
 }
 
 var c20paymentsWithTax atomic.Int64
@@ -708,6 +709,8 @@ func c20payment(c *Ctx, rng *rand.Rand) {
 	}
 	nl := 1 + rng.IntN(8)
 	rates := map[string]string{}
+	longRates := rng.IntN(5) == 0
+	nearTie := false
 	var lines []any
 	inDomain := true
 	type lineExp struct {
@@ -735,6 +738,12 @@ func c20payment(c *Ctx, rng *rand.Rand) {
 				le.cur, le.curDec = oc.code, oc.dec
 				if _, ok := rates[oc.code]; !ok {
 					rates[oc.code] = dec.New(1+rng.Int64N(3_000_000), 1+rng.IntN(6)).String()
+					if longRates {
+						// a reciprocal written out to 9-12 decimals (13-14 significant digits): the
+						// raw product of amount and rate passes 2^63 although every value involved,
+						// and the result, is of ordinary size
+						rates[oc.code] = dec.New(1_000_000_000_000+rng.Int64N(90_000_000_000_000), 9+rng.IntN(4)).String()
+					}
 				}
 			}
 		}
@@ -879,7 +888,20 @@ func c20payment(c *Ctx, rng *rand.Rand) {
 		if e < pc.dec {
 			e = pc.dec
 		}
-		return dec.RoundRat(d.Mul(r).Rat(), e).Round(pc.dec)
+		x := d.Mul(r)
+		out := dec.RoundRat(x.Rat(), e)
+		if longRates {
+			// the library multiplies in float64: with 19-20 digit products its result is
+			// exact except within ~1e-4 of a half unit; such cases are not judged
+			diff := x.Sub(out)
+			if diff.Sign() < 0 {
+				diff = diff.Neg()
+			}
+			if diff.Cmp(dec.New(499, e+3)) > 0 && diff.Cmp(dec.New(501, e+3)) < 0 {
+				nearTie = true
+			}
+		}
+		return out.Round(pc.dec)
 	}
 	total := dec.Zero(pc.dec)
 	var taxWant *cSum
@@ -890,7 +912,7 @@ func c20payment(c *Ctx, rng *rand.Rand) {
 			lowerPrec = true
 		}
 		total = total.Add(lt)
-		if inDomain {
+		if inDomain && !nearTie {
 			if g := mustD(got.Doc.Lines[i].Total); g.Cmp(lt) != 0 {
 				cl := class
 				if le.cur != pc.code {
@@ -918,7 +940,15 @@ func c20payment(c *Ctx, rng *rand.Rand) {
 		}
 	}
 	_ = lowerPrec
-	if inDomain {
+	if longRates && len(rates) > 0 {
+		c.R.Count("payments_with_long_exchange_rates", 1)
+		if nearTie {
+			c.R.Count("payments_with_long_exchange_rates_near_a_tie(not_judged)", 1)
+		}
+	}
+	if inDomain && nearTie {
+		// not judged
+	} else if inDomain {
 		if g := mustD(got.Doc.Total); g.Cmp(total) != 0 {
 			c.R.Fail("payment:total:"+class, fmt.Sprintf("payment total %s, Σ(debit−credit) converted = %s", g, total), map[string]any{"doc": json.RawMessage(in)})
 		}
